@@ -27,6 +27,47 @@ def run(ctx: Ctx, chk) -> None:
     chk.run_rule(except2, ctx)
     chk.run_rule(tables.handler_state_rule, ctx)
     chk.run_rule(reject_order, ctx)
+    chk.run_rule(wrapper_only_missing, ctx)
+
+
+def wrapper_only_missing(ctx: Ctx, chk) -> None:
+    rule = "WRAP-MISSING"
+    chk.rule(rule, "the 2.x missing-node/child wrapper - set aside by the 1.x -> 2.x comparison because the statement excludes unknown nodes and children - acts on nothing else: every exception clause in it (written as try/except or as a context manager's exit) names only MissingNodeError / MissingChildError (or subclasses), so a message that is rejected for any other reason, or accepted, is handled as under 1.x")
+    from . import c10
+
+    w0 = c10._wrapper(ctx)
+    w = ctx.inl(w0, c10._NOT_HANDLER)
+    eea = ctx.eea()
+    allowed = ("aiomysensors.exceptions.MissingNodeError", "aiomysensors.exceptions.MissingChildError")
+    n = 0
+    for h in [x for x in ctx.own_nodes(w) if isinstance(x, ast.ExceptHandler)]:
+        n += 1
+        chk.instance(rule)
+        key = f"{w0.fq}::except {norm(h.type) if h.type is not None else ''}"[:160]
+        if h.type is None:
+            names = ["builtins.BaseException"]
+        else:
+            raw = h.type.elts if isinstance(h.type, ast.Tuple) else [h.type]
+            names = []
+            for x in raw:
+                d = ctx.prog.resolve_expr(ctx.prog.origin(w.module, x), x) if isinstance(x, (ast.Name, ast.Attribute)) else None
+                if d is not None and d.kind == "class":
+                    names.append(d.obj.fq)
+                elif isinstance(x, (ast.Name, ast.Attribute)) and norm(x).rsplit(".", 1)[-1] in ("Exception", "BaseException", "OSError", "ValueError", "TypeError", "KeyError", "LookupError", "RuntimeError", "AttributeError"):
+                    names.append("builtins." + norm(x).rsplit(".", 1)[-1])
+                else:
+                    raise AnalysisError(f"WRAP-MISSING: exception clause `{norm(h.type)}` of the wrapper not resolved ({ctx.loc(w, h)})")
+        # a clause that only re-raises (`except X: raise`) or cleans up and re-raises without sending is transparent
+        sends = [x for b in h.body for x in ast.walk(b) if isinstance(x, ast.Call) and isinstance(x.func, ast.Attribute) and x.func.attr in ("send", "write")]
+        reraises = bool(h.body) and isinstance(h.body[-1], ast.Raise) and h.body[-1].exc is None
+        wide = [nm for nm in names if not any(eea.issub(nm, a) for a in allowed)]
+        if not wide:
+            chk.ok(rule, key, "acts on a missing node / child only", ctx.loc(w, h))
+        elif reraises and not sends:
+            chk.ok(rule, key, "re-raises without sending anything", ctx.loc(w, h))
+        else:
+            chk.refute(rule, key, f"the 2.x wrapper also acts on {', '.join(x.rsplit('.', 1)[-1] for x in wide)}: a message that protocol 1.x simply rejects (invalid payload, unsupported type ...) additionally {'writes a presentation request' if sends else 'is handled differently'} under 2.x although no unknown node or child is involved - the same history produces different writes / errors", ctx.loc(w, h))
+    chk.floor(rule, "exception clauses of the wrapper", n, 1)
 
 
 def rejection_order(ctx: Ctx, f) -> set:
